@@ -132,6 +132,7 @@ REWRITES = [
     ("R6", "trafficshape/listener.go", r6),
     ("R7", "trafficshape/conn.go", r7),
     ("R8", "multierror.go", lock_yield("multierror")),
+    ("R8", "proxy.go", lock_yield("proxy")),
     ("R8", "har/har.go", lock_yield("har")),
     ("R8", "martianhttp/martianhttp.go", lock_yield("martianhttp")),
     ("R8", "fifo/fifo_group.go", lock_yield("fifo")),
